@@ -3,7 +3,7 @@
    The kind numbers are fixed; each run_*_case lives in its own *IO.v file. *)
 From Coq Require Import List Arith.
 From M Require Import Sx FlatIO QueueIO MultiIO HsmIO NamingIO BuildIO MarkupIO DiagramIO FeaturesIO
-  TimerIO LockIO AsyncIO AsyncConcIO PickleIO FactoryIO HsmQueueIO.
+  TimerIO LockIO AsyncIO AsyncConcIO PickleIO FactoryIO HsmQueueIO HBuildIO.
 Import ListNotations.
 
 Definition dispatch (k : nat) (x : sx) : sx :=
@@ -24,6 +24,7 @@ Definition dispatch (k : nat) (x : sx) : sx :=
   | 13 => run_pickle_case x
   | 14 => run_factory_case x
   | 15 => run_hsmq_case x
+  | 17 => run_hbuild_case x
   | 19 => run_hreent_case x       (* 16, 17, 18: reserved for C11, C13, C07 *)
   | _ => L [N 0]
   end.
